@@ -141,6 +141,57 @@ theorem no_signing_unless_opted_in_raw :
 example : ∃ m ∈ methods, exposed params .pow Cfg.default ({ RawEnv.unset with http := some "yes" }).read .http m = true ∧ signs .pow m = true :=
   ⟨⟨"aqua", "sign", "Sign", "aquaapi.PublicTransactionPoolAPI", false, true, false, false, true, true⟩, by decide, by decide +kernel, by decide⟩
 
+/-! ### Growth 5: the full statement for every chain configuration, the clique sealing finding being the only exclusion -/
+
+/-- tie: the only config-gated engine is clique, and its guard is the `Clique` field of the chain configuration (T-gen). -/
+theorem clique_engine_guard :
+    gatedEngines = [("gitlab.com/aquachain/aquachain/consensus/clique.Clique", "params.ChainConfig.Clique != nil")] := by decide
+
+/-- **Every chain configuration without a Clique section** (`chainConfig.Clique == nil`): the full statement, over the raw
+    process environment, every module configuration and every transport. -/
+theorem no_signing_unless_opted_in_nonclique :
+    ∀ (cliqueSet : Bool), cliqueSet = false → ∀ m ∈ methods, ∀ (cfg : Cfg) (t : Transport) (r : RawEnv),
+      exposed params (kindOfCfg cliqueSet) cfg r.read t m = true → signs (kindOfCfg cliqueSet) m = true → optedInRaw r t = true := by
+  intro c hc m hm cfg t r hx hs
+  subst hc
+  exact no_signing_unless_opted_in_raw m hm cfg t r hx hs
+
+example : kindOfCfg false = .pow ∧ kindOfCfg true = .clique := by decide
+
+/-- **Any chain configuration**: a method that is exposed and can reach a signing entry point either had its transport opted in,
+    or the configuration selects clique and the method is one of the three miner starters (the recorded finding) — nothing else. -/
+theorem no_signing_unless_opted_in_anychain :
+    ∀ (cliqueSet : Bool), ∀ m ∈ methods, ∀ (cfg : Cfg) (t : Transport) (r : RawEnv),
+      exposed params (kindOfCfg cliqueSet) cfg r.read t m = true → signs (kindOfCfg cliqueSet) m = true →
+      optedInRaw r t = true ∨ (cliqueSet = true ∧ (m.ns, m.name) ∈ cliqueSealStarters) := by
+  intro c m hm cfg t r hx hs
+  cases c with
+  | false => exact Or.inl (no_signing_unless_opted_in_nonclique false rfl m hm cfg t r hx hs)
+  | true =>
+    by_cases hex : (m.ns, m.name) ∈ cliqueSealStarters
+    · exact Or.inr ⟨rfl, hex⟩
+    · left
+      rw [← optedIn_read]
+      exact no_signing_unless_opted_in_anykind_partial .clique m hm hex cfg t r.read hx hs
+
+example : ∃ m ∈ methods, exposed params (kindOfCfg true) Cfg.default RawEnv.unset.read .http m = true ∧ signs (kindOfCfg true) m = true ∧
+    (m.ns, m.name) ∈ cliqueSealStarters :=
+  ⟨⟨"aqua", "getWork", "GetWork", "aqua.PublicMinerAPI", false, true, false, false, true, false⟩, by decide, by decide, by decide, by decide⟩
+
+/-- of the chain configurations registered in package params (regenerated: `Clique != nil` per name) exactly testnet3 has a
+    Clique section … -/
+theorem builtin_clique_networks : (builtinNets.filter (·.2)).map (·.1) = ["testnet3"] := by decide
+
+/-- … so on mainnet, testnet, testnet2 and the dev/test configurations the full statement holds. -/
+theorem no_signing_unless_opted_in_builtin_networks :
+    ∀ n ∈ builtinNets, n.1 ≠ "testnet3" → ∀ m ∈ methods, ∀ (cfg : Cfg) (t : Transport) (r : RawEnv),
+      exposed params (kindOfCfg n.2) cfg r.read t m = true → signs (kindOfCfg n.2) m = true → optedInRaw r t = true := by
+  intro n hn hne m hm cfg t r hx hs
+  have h : ∀ n ∈ builtinNets, n.1 ≠ "testnet3" → n.2 = false := by decide
+  exact no_signing_unless_opted_in_nonclique n.2 (h n hn hne) m hm cfg t r hx hs
+
+example : ("mainnet", false) ∈ builtinNets ∧ ("mainnet", false).1 ≠ "testnet3" := by decide
+
 /-! ### C18, second sentence: opting in is per transport -/
 
 /-- **Opt-in is per transport**: setting (or clearing) the variable designated for transport t' changes nothing about what any
